@@ -227,7 +227,7 @@ func runC05(c *report.Ctx) {
 				continue
 			}
 			for i := 0; i < st.NumFields(); i++ {
-				fname := st.Field(i).Name()
+				fname := an.FName(st, i)
 				for _, s := range fieldStoresAny(f, t, fname) {
 					v := s.(*ssa.Store).Val
 					if !isBytesOrString(v.Type()) {
@@ -405,7 +405,7 @@ func fieldStoresAny(f *ssa.Function, named *types.Named, fname string) []ssa.Ins
 		if n == nil || n.Obj() != named.Obj() {
 			return
 		}
-		if n.Underlying().(*types.Struct).Field(fa.Field).Name() == fname {
+		if an.FName(n.Underlying().(*types.Struct), fa.Field) == fname {
 			out = append(out, in)
 		}
 	})
